@@ -86,6 +86,18 @@ def check(repo: Repo, rep: Report) -> None:
     for rel_, q_ in (("reactivex/observable/groupedobservable.py", "GroupedObservable.__init__.subscribe"),
                      ("reactivex/observable/groupedobservable.py", "GroupedObservable._subscribe_core")):
         TC.rule_scheduler_forwarded(rep, "F0-scheduler-forwarded", repo.fn(rel_, q_))
+    # GroupedObservable(key, subject[, refcount]): key first — the group handed downstream and the one handed to the duration mapper
+    for g_ in root.walk():
+        if not g_.is_func:
+            continue
+        for n_ in g_.direct_nodes():
+            if isinstance(n_, ast.Call) and call_name(n_) == "GroupedObservable" and len(n_.args) >= 2:
+                a0, a1 = n_.args[0], n_.args[1]
+                key_like = isinstance(a0, ast.Name) and any(isinstance(m_, ast.Assign) and u(m_.targets[0]) == a0.id and isinstance(m_.value, ast.Call) and "key" in u(m_.value.func) for m_ in g_.direct_nodes())
+                subj_like = isinstance(a1, ast.Name) and any(isinstance(m_, ast.Assign) and u(m_.targets[0]) == a1.id and isinstance(m_.value, ast.Call) and ("subject" in u(m_.value.func).lower() or "get" in u(m_.value.func)) for m_ in g_.direct_nodes())
+                rep.ob("G1-single-delivery", g_, f"{g_.qual}: `{short(n_, 60)}` = GroupedObservable(<key>, <group subject>, ...)", key_like and subj_like,
+                       "a GroupedObservable is built with its key and its subject exchanged: `.key` is the subject and subscribing the group fails — "
+                       "duration selectors that look at the group, and every consumer of `.key`, see the wrong thing")
     TC.rule_fanout_loops(rep, "G3-terminal-fan-out", root)
     TC.rule_no_mutation_while_iterating(rep, "G3-terminal-fan-out", root)
     # a failing user callback (key / element / subject / duration mapper) ends every open group with that error before the
